@@ -245,6 +245,118 @@ def record_messages(run: Run, rnd: random.Random, thorough: bool, evs: list[dict
     return stats
 
 
+def record_tr_script_spends(run: Run, rnd: random.Random, thorough: bool, evs: list[dict[str, Any]]) -> dict[str, int]:
+    """tr() descriptors with script leaves -- pk, multi_a, miniscript leaves, a key that sits in two different leaves -- built as a PSBT, signed by the
+    holders of one leaf's keys only (so that leaf is the one spent), finalized with the miniscript solver, extracted, and judged by both engines."""
+    from btclib.bip32 import bip32
+    from btclib.descriptors import descriptors, miniscript_solver
+    from btclib.psbt.psbt import Psbt, extract_tx, finalize
+    from btclib.psbt_signer import request_signatures
+    from btclib.tx import OutPoint, Tx, TxIn, TxOut
+
+    from .c18 import X1
+
+    kit = Kit()
+    stats = {"spends": 0, "refused": 0}
+
+    def acct(sg: Any, x: str, path: str) -> str:
+        return f"[{sg.master_fingerprint.hex()}/{path[2:]}]" + bip32.xpub_from_xprv(bip32.derive(x, path))
+
+    a, b = acct(kit.s1, X1, "m/86h/0h/9h"), acct(kit.s2, kit.X2, "m/86h/0h/9h")
+    NUMS = "50929b74c1a04954b78b4b6035e97a5e078a5a0f28ec96d547bfee9ace803ac0"
+    cases = [  # (descriptor, signers, sequence, how many leaves those signers can spend, what)
+        (f"tr({a}/0/*,{{pk({a}/1/*),pk({b}/0/*)}})", [kit.s1], 0xFFFFFFFD, 1, "the first leaf (the signer also holds the internal key)"),
+        (f"tr({a}/0/*,{{pk({a}/1/*),pk({b}/0/*)}})", [kit.s2], 0xFFFFFFFD, 1, "the second leaf"),
+        (f"tr({NUMS},{{multi_a(2,{a}/0/*,{b}/0/*),and_v(v:pk({a}/0/*),older(144))}})", [kit.s1, kit.s2], 0xFFFFFFFD, 1, "the multi_a leaf"),
+        (f"tr({NUMS},{{multi_a(2,{a}/0/*,{b}/0/*),and_v(v:pk({a}/0/*),older(144))}})", [kit.s1], 144, 1, "the timelocked leaf of a key that is in two leaves"),
+        (f"tr({b}/1/*,{{{{pk({a}/2/*),and_v(v:pk({a}/2/*),after(100))}},pk({b}/3/*)}})", [kit.s1], 0xFFFFFFFD, 1, "a leaf at depth 2 whose key is in its sibling too (satisfy takes key -> signature and spends the cheaper of the two)"),
+        (f"tr({NUMS},{{and_v(v:pk({a}/4/*),pk({b}/4/*)),{{pk({b}/5/*),sortedmulti_a(1,{a}/5/*,{b}/6/*)}}}})", [kit.s1], 0xFFFFFFFD, 1, "sortedmulti_a 1-of-2 by one holder"),
+        (f"tr({NUMS},{{and_v(v:pk({a}/4/*),pk({b}/4/*)),{{pk({b}/5/*),sortedmulti_a(1,{a}/5/*,{b}/6/*)}}}})", [kit.s1, kit.s2], 0xFFFFFFFD, 3, "every leaf, both signers"),
+    ]
+    from btclib.descriptors.miniscript import SpendContext
+    from btclib.script.taproot import leaf_hash
+
+    for k, (text, signers, sequence, expect, what) in enumerate(cases):
+        d = outcome(lambda: descriptors.parse(text))
+        if isinstance(d, str):
+            evs.append({"op": "holds", "what": f"parse of {text[:50]}..: {d}", "ok": False})
+            continue
+        for index in (0, 7) if thorough else (k,):
+            prev_out = TxOut(100_000, d.script_pub_key(index))
+            prev_tx = Tx(vin=[TxIn(OutPoint(bytes([k + 1]) * 32, 0))], vout=[prev_out])
+            lock = 200 if "after" in text else 0
+
+            def signed() -> Any:
+                tx = Tx(2, lock, [TxIn(OutPoint(prev_tx.id, 0), b"", sequence)], [TxOut(99_000, bytes.fromhex("0014" + "77" * 20))])
+                p = Psbt.from_tx(tx)
+                p.inputs[0].non_witness_utxo = prev_tx
+                p = d.update_psbt_input(p, 0, index)
+                if index % 2:
+                    p = p.to_v2()
+                for sg in signers:
+                    p = request_signatures(sg, p)
+                return p
+
+            p = outcome(signed)
+            if isinstance(p, str):
+                stats["refused"] += 1
+                evs.append({"op": "holds", "what": f"a tr() descriptor is updated and signed ({what}): {p}", "ok": False})
+                continue
+            # every leaf the signatures at hand satisfy is spent, each with the signatures made for that leaf
+            spent = 0
+            for script, ver in sorted(p.inputs[0].taproot_leaf_scripts.values()):
+                lh = leaf_hash(ver, script)
+                sigs = {kd[:32]: sg for kd, sg in p.inputs[0].taproot_script_spend_signatures.items() if kd[32:] == lh}
+                r = outcome(lambda: d.satisfy(sigs, index, spend=SpendContext(locktime=lock, sequence=sequence, version=2)))
+                if isinstance(r, str) or len(r[1].stack) < 2 or r[1].stack[-2] != script:
+                    continue
+                tx = p.tx
+                tx.vin[0].script_sig, tx.vin[0].script_witness = r
+                oks = verify_events(tx, [prev_out], STANDARD, evs, f"tr script path: {what}")
+                evs.append({"op": "holds", "what": f"the engine accepts a tr() descriptor spent through a leaf its signers satisfy ({what})", "ok": all(oks)})
+                spent += 1
+                stats["spends"] += 1
+            evs.append({"op": "holds", "what": f"the signers of '{what}' can spend {expect} leaf/leaves of the tree: {spent} satisfied", "ok": spent == expect})
+            if k < 2 or len(p.inputs[0].taproot_script_spend_signatures) == 1:
+                t = outcome(lambda: extract_tx(finalize(p, solver=miniscript_solver)))
+                ok = (not isinstance(t, str)) and all(verify_events(t, [prev_out], STANDARD, evs, f"tr finalized: {what}"))
+                evs.append({"op": "holds", "what": f"the Finalizer completes the spend of a tr() descriptor ({what}) and the engine accepts it", "ok": ok})
+    return stats
+
+
+def record_wallet_messages(run: Run, rnd: random.Random, thorough: bool, evs: list[dict[str, Any]]) -> int:
+    """Message signatures through a wallet: the wallet signs by address with the key it was given, compressed or not, on both network types."""
+    from btclib import b58, bip322
+    from btclib.ecc import bms
+    from btclib.to_prv_key import prv_keyinfo_from_prv_key
+    from btclib.wallet import KeyWallet
+
+    n = 0
+    for q in (rnd.randrange(1, 2**255), rnd.randrange(1, 2**255)):
+        for network in ("mainnet", "testnet"):
+            for compressed in (True, False):
+                wif = b58.wif_from_prv_key(q, network, compressed)
+                w = outcome(lambda: KeyWallet([wif], "p2pkh", network))
+                if isinstance(w, str):
+                    evs.append({"op": "holds", "what": f"KeyWallet of one {'compressed' if compressed else 'uncompressed'} key: {w}", "ok": False})
+                    continue
+                address = b58.p2pkh(wif)
+                tag = f"{'compressed' if compressed else 'uncompressed'} key on {network}"
+                evs.append({"op": "holds", "what": f"the wallet's address is the key's ({tag}): {list(w.addresses)}", "ok": list(w.addresses) == [address]})
+                sig = outcome(lambda: w.sign(address, b"msg"))
+                evs.append({"op": "holds", "what": f"a wallet signs a message for the address of its {tag} and the signature verifies", "ok": (not isinstance(sig, str)) and outcome(lambda: bms.verify(b"msg", address, sig)) is True})
+                held = outcome(lambda: w.prv_key(address))
+                evs.append({"op": "holds", "what": f"the key the wallet answers for its address is the key it was given ({tag})", "ok": outcome(lambda: prv_keyinfo_from_prv_key(held)) == (q, network, compressed)})
+                twin = b58.p2pkh(b58.wif_from_prv_key(q, network, not compressed))
+                if not isinstance(sig, str):
+                    evs.append({"op": "fails", "what": f"a wallet's message signature verifies for the address of the other spelling of the key ({tag})", "ok": outcome(lambda: bms.verify(b"msg", twin, sig)) is True})
+                if compressed and not isinstance(held, str):
+                    pr = outcome(lambda: bip322.sign(b"msg", held, b58.p2pkh(wif)))
+                    evs.append({"op": "holds", "what": f"a BIP322 signature made with the wallet's key verifies for its address ({tag})", "ok": (not isinstance(pr, str)) and outcome(lambda: bip322.verify(b"msg", address, pr)) is True})
+                n += 1
+    return n
+
+
 def check(run: Run) -> None:
     thorough = run.tier == "thorough"
     rnd = random.Random(run.seed)
@@ -258,10 +370,12 @@ def check(run: Run) -> None:
     evs: list[dict[str, Any]] = []
     s1 = record_spends(run, rnd, thorough, evs)
     s2 = record_messages(run, rnd, thorough, evs)
+    s2["wallet"] = record_wallet_messages(run, rnd, thorough, evs)
+    s4 = record_tr_script_spends(run, rnd, thorough, evs)
     # wsh(miniscript) spends: what the library's satisfier produces is judged by the specification's engine too (C15 has the full set)
     from . import c15
 
-    s3 = c15.record(run, rnd, False, evs, only=["and_v(v:pk(A),after(500000))", "and_v(v:pk(A),after(600000000))", "and_v(v:pk(A),older(10))", "or_d(pk(A),and_v(v:pk(B),older(4194305)))",
+    s3 = c15.record(run, rnd, False, evs, only=["or_d(andor(pk(A),pk(B),pkh(C)),pk(D))", "or_b(thresh(2,pk(A),a:pkh(B),s:pk(C)),s:pk(D))", "andor(or_b(pk(A),a:pkh(B)),pk(E),pk(D))", "and_v(v:pk(A),after(500000))", "and_v(v:pk(A),after(600000000))", "and_v(v:pk(A),older(10))", "or_d(pk(A),and_v(v:pk(B),older(4194305)))",
                                                 "thresh(2,pk(A),s:pk(B),s:pk(C))", "andor(pk(A),older(100),and_v(v:pk(B),hash160(G)))", "or_i(multi(2,A,B),and_v(v:pk(C),after(700000)))",
                                                 "and_v(v:multi(2,A,B),older(5))"])
     keep = ("op", "tx", "prevouts", "idx", "flags", "ok", "ast", "script", "size", "reads_back", "reparses", "sigs", "pre", "produced", "stack", "max_ops", "max_items", "max_size")
@@ -276,7 +390,7 @@ def check(run: Run) -> None:
                       f"{e['op']}: {what}: the library's engine says {'accepted' if e.get('ok') else 'rejected'}; the specification says {str(diag.get(k))[:200]}",
                       {"event": e, "expected": str(diag.get(k))[:2000]})
     run.sample({"event": {k: (v if len(str(v)) < 120 else str(v)[:120]) for k, v in next(e for e in evs if e["op"] == "verify").items()}})
-    run.section("events", {"spends": s1, "messages": s2, "miniscript": s3, "verify_events": sum(1 for e in evs if e["op"] == "verify")})
+    run.section("events", {"spends": s1, "messages": s2, "miniscript": s3, "tr_script_paths": s4, "verify_events": sum(1 for e in evs if e["op"] == "verify")})
     if s1["signed"] < 10 or s1["rejected_tampered"] < 10:
         raise tlc.TLCFailure(f"C10 harness is vacuous: {s1}")
     run.count(evaluations=len(evs), validated=len(evs), nontrivial=len(evs))
